@@ -501,8 +501,24 @@ def getters(prog, rep, roles):
                             ap = terms.access_path(('ref', pp[0])) if pp and pp[0] is not None else None
                             if ap and ap[0] == 1 and terms.strip_some(ap[1])[:1] == (fi,):
                                 key = ts.strip_ref(pp[1])
+                    empty_const_search = False
+                    if key is None and present == 'neg':
+                        # `variants().any(..)` with the accessor handing out `&[]` for an absent list: a search over a constant empty slice is `false`
+                        for ev in s.state.events:
+                            if ev[0] == 'call' and ev[1].split('::')[-1] in ('any', 'position', 'contains') and ev[2]:
+                                itv = ev[2][0]
+                                for _ in range(3):
+                                    if itv[0] in ('ref', 'cref'):
+                                        try:
+                                            itv = e.deref_value(s.state, itv)
+                                        except Exception:
+                                            break
+                                sj = itv[1] if itv[0] == 'sliceiter' else None
+                                if sj is not None and (sj[0] == 'CONST' or (sj[0] == 'P' and sj[1][0] == 'ref' and sj[1][1][0] in ('MEM', 'STR') and not sj[1][1][1])
+                                                       or (sj[0] == 'P' and sj[1][0] == 'cref' and sj[1][1][0] == 'array' and not sj[1][1][1])):
+                                    empty_const_search = True
                     if key is None:
-                        if not (present == 'neg' and s.ret == ('int', 0)):
+                        if not (present == 'neg' and (s.ret == ('int', 0) or empty_const_search)):
                             bad.append('a path answers without looking the argument up in the list (and the list is not known to be absent)')
                     elif key != ('param', 2):
                         bad.append('the list is searched for %s, not for the argument' % e.short(key, 100))
